@@ -9,7 +9,7 @@
 From Coq Require Import String List Arith NArith Bool Lia Permutation.
 Import ListNotations.
 Require Import Show Names SpecModel VMeaning MetaTable MetaSpecTable MetaBase MetaShow MetaModel MetaFacts.
-Require Import MetaModel3 MetaFacts3 MetaModels MetaFinal3 EmailModel MetaEmailModel MetaEmailFacts.
+Require Import MetaModel3 MetaFacts3 MetaModels MetaFinal3 EmailModel MetaEmailModel MetaEmailFacts MetaHeap MetaHeapFacts.
 Open Scope N_scope.
 
 (* 0. the table extracted from the working tree on this run is the core-metadata specification table
@@ -298,3 +298,42 @@ Definition part2_check : bool :=
   end.
 Example C17_part2_nonvacuous : part2_check = true.
 Proof. vm_compute. reflexivity. Qed.
+
+
+(* ====================================================================================================================================
+   PART III - "never modifies the caller's raw dict", in a model where it could be false: Meta/MetaHeap.v (run by the command m.heap).
+   Dicts and their values are heap objects; from_raw allocates a new dict object with the same entries (data.copy(): a SHALLOW copy, the
+   value objects stay shared); `del instance._raw[name]` mutates the dict object the instance refers to. *)
+
+(* 14. after from_raw and any sequence of attribute reads - the validation loop of from_raw(validate=True) is one - the caller's dict
+       object has the same entries and no value object of the heap has changed *)
+Theorem C17_caller_dict_untouched O w dl d ks : lookup dl (w_dicts w) = Some d ->
+  let '(w1, hi) := from_raw_h w dl in
+  let '(w', _, _) := hreads O w1 hi ks in
+  lookup dl (w_dicts w') = Some d /\ w_vals w' = w_vals w.
+Proof. apply caller_dict_untouched. Qed.
+Print Assumptions C17_caller_dict_untouched.
+(* 14b. the heap model refines the functional one: the reads give what [reads3] gives on the content of the caller's dict at construction *)
+Theorem C17_heap_refines_run_model O w d dl ks : (forall kl, In kl d -> exists v, lookup (snd kl) (w_vals w) = Some v) -> lookup dl (w_dicts w) = Some d ->
+  let '(w1, hi) := from_raw_h w dl in let '(_, _, rs) := hreads O w1 hi ks in rs = reads3 O (init (deref w d)) ks.
+Proof. intros C. now apply heap_refines_reads3. Qed.
+Print Assumptions C17_heap_refines_run_model.
+(* 14c. what the code does about sharing: the first read of a present field WITHOUT a converter returns the caller's own value object
+        (a later in-place change of it, by anyone, shows through the Metadata object); a field WITH a converter returns a new object
+        (no later change of the heap shows) *)
+Theorem C17_copy_is_shallow O w hi k d l v : lookup k (hi_cache hi) = None -> is_field k = true ->
+  lookup (hi_raw hi) (w_dicts w) = Some d -> lookup k d = Some l -> lookup l (w_vals w) = Some v ->
+  let '(_, hi', r) := hread O w hi k in
+  (converted k = false -> r = Ok (plain (Some v)) /\ lookup k (hi_cache hi') = Some (CRef l)) /\
+  (converted k = true -> forall e, r = Ok e -> lookup k (hi_cache hi') = Some (COwn e)).
+Proof. apply first_read_object. Qed.
+Print Assumptions C17_copy_is_shallow.
+Theorem C17_shared_and_own_objects O w w' hi k :
+  (forall l v', lookup k (hi_cache hi) = Some (CRef l) -> hread O (set_val w l v') hi k = (set_val w l v', hi, Ok (plain (Some v')))) /\
+  (forall e, lookup k (hi_cache hi) = Some (COwn e) -> hread O w' hi k = (w', hi, Ok e)).
+Proof. split; [intros l v'; apply shared_object_visible | intros e H; now apply (own_object_stable O w w' hi k e)]. Qed.
+Print Assumptions C17_shared_and_own_objects.
+(* non-vacuity: with the copy the caller keeps its keys, WITHOUT it (from_raw_nocopy) two reads delete two of them; a shared list changed
+   in place shows through the object, a converted one and a re-bound key do not *)
+Example C17_heap_nonvacuous : heap_check = true.
+Proof. exact heap_check_ok. Qed.
